@@ -19,12 +19,14 @@ def gen():
 
 
 def run(tier, replay=None):
-    rep = mhlib.run_property("C05", ["sha1", "sha256"], tier, replay, n_quick=900, n_thorough=16000, rng_salt=5,
+    rep = mhlib.run_property("C05", ["sha1", "sha256"], tier, replay, n_quick=800, n_thorough=16000, rng_salt=5,
                              extra_assumptions=[])
     rep.cov["rule"] = ("cases = (algorithm in {mh_sha1, mh_sha256}, stream <= 8 KiB (thorough 16 KiB), partition into update calls, "
                        "placement of every input and of the context) x families {base,sse,avx,avx2,avx512} direct entry points, and every 3rd "
                        "case also through isal_mh_* under 5 virtual CPUID presets + legacy names; stream lengths from the boundary set "
                        "{0,1,..,1015,1016,1017,1023,1024,1025,2039..2049,3071..3073,4095..4097} mixed with uniform; partitions: single, cuts at "
                        "{0,1,63..65,1007..1025,2047..2049,...}, partial p then 1024-p-1 / 1024-p / 1024-p+1 (also +1024), random cuts, zero-length "
-                       "updates, up to 1500 tiny updates, 16-byte-granular cuts; distinct = distinct (case, family); non-trivial = non-empty stream")
+                       "updates, up to 1500 tiny updates, 16-byte-granular cuts; plus 33 state-injection cases per algorithm (total_length around 2^29, 2^30, 2^31, 2^32 - 5 KiB, random interim digests, short suffix) "
+                       "and 2 real streams of 2^29 / 2^29 + r bytes per algorithm (thorough: up to 2^32 - 1 KiB) whose expected value is the model "
+                       "continued from the context observed after the natively hashed prefix; distinct = distinct (case, family); non-trivial = non-empty stream")
     return rep.finish()
